@@ -351,18 +351,41 @@ def check_negotiate(prog, r):
     # the two other copies of the send-side test
     for nm in (r"rustybgpd::fsm::PeerFsm::process", r"rustybgpd::event::Peer::adj_out_effective_max"):
         k = prog.one(nm)
-        found = {}
+        # which mask is applied to whose capability list: every scan of a capability list (`caps.iter().any(closure)`) is classified
+        # by its receiver (the local list: field local_cap / the peer's list: anything else) and by the BitAnd constants in the
+        # closure; a scan written once as a local closure taking the mask as a parameter is classified per call site
+        found = {"local_tx": set(), "remote_rx": set()}
+        from ..inline import _closure_of_local
         for kk in prog.with_closures(k):
             kv = view(prog, kk)
-            for l, n in kv.local_name.items():
-                if n in ("local_tx", "remote_rx"):
-                    for bi, si, s in kv.defs().get(l, []):
-                        e = Renderer(kv, depth=12).call_expr(s, 12, bi) if si == "t" else Renderer(kv, depth=12).rvalue(s["rv"], 12)
-                        ms = set()
-                        for x in walk(e):
-                            if isinstance(x, tuple) and x and x[0] == "agg" and x[1] == "closure":
-                                ms |= masks_in(prog, x[2])
-                        found.setdefault(n, set()).update(ms)
+            rn = Renderer(kv, depth=14, through_names=True)
+            for bi, t in kv.calls():
+                nm_ = t["f"].get("name") or ""
+                if nm_.endswith("Iterator::any") and "Capability" in t["f"].get("ga", ""):
+                    recv = rn.operand(t["args"][0], 14)
+                    ck = None
+                    q = t["args"][1].get("c") or t["args"][1].get("m")
+                    if q is not None and not q.get("p"):
+                        ck = _closure_of_local(kv.f, q["l"])
+                    ms = masks_in(prog, ck) if ck else set()
+                    if not ms:
+                        continue          # the mask is not a literal here (a parameter): classified at the call sites below
+                    cls_ = "local_tx" if "local_cap" in show(recv, 1000) else "remote_rx"
+                    found[cls_] |= ms
+                elif re.search(r"ops::(function::)?(Fn|FnMut|FnOnce)::call(_mut|_once)?$", nm_) and len(t["args"]) > 1:
+                    tl = (t["args"][1].get("c") or t["args"][1].get("m") or {}).get("l")
+                    tup = None
+                    for b2, si2, s2 in kv.defs().get(tl, []) if tl is not None else []:
+                        if si2 != "t" and s2["rv"]["r"] == "agg" and s2["rv"].get("k") == "tuple":
+                            tup = s2["rv"]["fields"]
+                    if not tup:
+                        continue
+                    consts = {(f_.get("k") or {}).get("v") for f_ in tup if isinstance((f_.get("k") or {}).get("v"), int)}
+                    if not consts or not any("Capability" in kv.f["locals"][(f_.get("c") or f_.get("m") or {}).get("l", 0)] for f_ in tup if (f_.get("c") or f_.get("m"))):
+                        continue
+                    exprs = [rn.operand(f_, 14) for f_ in tup]
+                    cls_ = "local_tx" if any("local_cap" in show(x, 1000) for x in exprs) else "remote_rx"
+                    found[cls_] |= {c_ for c_ in consts if c_ in (1, 2, 3)}
         r.analysed(prog.name(k))
         if found.get("local_tx") == {2} and found.get("remote_rx") == {1}:
             r.ok("%s: send-side test uses local&0x2 and remote&0x1" % short(prog.name(k)))
